@@ -52,6 +52,7 @@ func init() {
 		Explanation: "Decided: (R1) no registered reader/writer passes a value to the codec that it cannot represent (interface-typed refs, named basic types, unexported-only structs ...); (R2) every message type told by an actor-context operation is registered for the wire, or is told only to references taken from the local parent/child/target tables or to the actor itself; " +
 			"(R3) the mailbox lookup reaches the remoting mailbox for every non-local address whenever remoting is enabled and the system is not stopped; (R4) sender/receiver roles are preserved end to end so that Reply reaches the original sender (C11.R5); (R5) a nested message that the library itself may leave nil (the Message of a failure PipeResult) is guarded by a non-nil test in its writer, because a nil message can only take the user-codec path and fails without a codec (F30, fixed); (R6) the key under which Watch/Unwatch store a watcher depends on the watcher's address; R1 also rejects length prefixes narrower than 4 bytes for unbounded strings (long actor paths). NOT decided: the observable effect at the remote actor.",
 		Rules: []Rule{
+			{ID: "C15.R7", Min: 5, Desc: "pooled codec objects start clean: an encode failure of one message cannot poison the next remote operation (C12.R9)", Fn: c12Pools},
 			{ID: "C15.R6", Min: 4, Desc: "watcher identity includes the address", Fn: c15WatcherIdentity},
 			{ID: "C15.R5", Min: 2, Desc: "optional nested payloads are encodable without a codec", Fn: c15OptionalPayload},
 			{ID: "C15.R1", Min: 28, Desc: "wire-representable fields", Fn: c15Representable},
